@@ -91,6 +91,10 @@ func (e *Env) Run(c Concrete, tok string) Obs {
 		o.Skip = "dial: " + err.Error()
 		return o
 	}
+	// closing with RST keeps tens of thousands of exchanges from piling up in TIME_WAIT
+	if tc, ok := raw.(*net.TCPConn); ok {
+		_ = tc.SetLinger(0)
+	}
 	defer raw.Close()
 	key := raw.LocalAddr().String()
 	resCh := e.resChan(key)
